@@ -6,7 +6,7 @@
     viewport, cursor; CR, LF, BS, TAB, printable bytes, wrap, viewport moving through the
     scrollback and then scrolling), written from the property text. *)
 From Coq Require Import NArith List.
-From FF Require Import Lib.Word Gen.Consts_device_tty Tty.Vt Tty.VtSpec Tty.VtProofs.
+From FF Require Import Lib.Word Gen.Consts_device_tty Tty.Vt Tty.VtSpec Tty.VtProofs Tty.VtLoops.
 Import ListNotations.
 Local Open Scope N_scope.
 
@@ -68,3 +68,26 @@ Theorem C17_write_result :
     exists v', write v bs 0 = Ok (v', N.of_nat (length bs), 0).
 Proof. exact vt_write_result_thm. Qed.
 Print Assumptions C17_write_result.
+
+(** The model summarises the two byte loops of the scroll branch of lf and the fill loop of AttachTo
+    as one pass over the buffer (so that the extracted model can run long histories).  The
+    summaries are the loops: [copy_loop] / [blank_loop] (Tty/VtLoops.v) perform the stores of the Go
+    loops one by one with bounds checks, with as much fuel as the Go loop makes iterations; the
+    equalities include the cases where the loop panics part-way. *)
+Theorem C17_scroll_copy_is_loop :
+  forall d s e stride, copy_down d s e stride = copy_loop (N.to_nat (e - s)) d s e stride.
+Proof. exact copy_down_is_loop. Qed.
+Print Assumptions C17_scroll_copy_is_loop.
+
+Theorem C17_scroll_blank_is_loop :
+  forall d e stride fg bg,
+    blank_range d e stride fg bg = blank_loop (N.to_nat ((stride + 2) / 3)) d e (e + stride) fg bg.
+Proof. exact blank_range_is_loop. Qed.
+Print Assumptions C17_scroll_blank_is_loop.
+
+Theorem C17_attach_fill_is_loop :
+  forall len fg bg,
+    blank_loop (N.to_nat ((len + 2) / 3)) (repeat 0 (N.to_nat len)) 0 len fg bg =
+    if len mod 3 =? 0 then Some (blank_cells (len / 3) fg bg) else None.
+Proof. exact attach_fill_is_loop. Qed.
+Print Assumptions C17_attach_fill_is_loop.
